@@ -15,7 +15,7 @@ SEED = int(os.environ.get("VERIF_SEED", "1"))
 sys.path.insert(0, os.path.join(ROOT, "target/py/mod"))
 
 STRS = ["alice", "O'Brien", "what?", "a?b?c", "", "x''y", "50%", "_u_", "ünï 日本", "semi;colon", "'); DROP TABLE t; --",
-        "?", "??", "line\nbreak", "NULL", "-5", "1e3", "back\\slash", '"dq"', "tab\there"]
+        "?", "??", "line\nbreak", "a b", "a  b", "a\tb", " a b", "a b ", "NULL", "-5", "1e3", "back\\slash", '"dq"', "tab\there"]
 INTS = [0, 1, 2, 3, 7, 42, -1, -5, 32767, 32768, 2147483647, 2147483648, -2147483649, 9223372036854775807, -9223372036854775807]
 FLOATS = [0.5, -2.25, 1234.125, 0.001, 3.0, 1e10, -0.0, 123456789.125]
 
@@ -178,12 +178,30 @@ def run_case(vibesql, seed, case):
     for cur in (a, b):
         cur.execute("CREATE TABLE t (id INTEGER, a BIGINT, s VARCHAR(40))")
     ids = [0]
+    prev = None
     pool = rng.sample(TEMPLATES, k=rng.randint(3, 6))
     if rng.random() < 0.7:
         pool.append(TEMPLATES[0])
     for step in range(rng.randint(6, 18)):
         kind, sql, kinds = rng.choice(pool)
         params = tuple(gen_value(rng, k, ids) for k in kinds)
+        if prev is not None and rng.random() < 0.3:
+            # the previous text again with a tuple that differs minimally from the previous one
+            # (whitespace, case, one character, int/str twins): the two calls must stay distinct
+            kind, sql, kinds = prev[0]
+            plist = list(prev[1])
+            idxs = [i for i, v in enumerate(plist) if isinstance(v, str) and kinds[i] != "like"] or list(range(len(plist)))
+            i = rng.choice(idxs)
+            v = plist[i]
+            if isinstance(v, str):
+                plist[i] = rng.choice([v.replace(" ", "  "), v.replace(" ", "\t"), v + " ", " " + v, v.upper(), v.swapcase(), v + "x", v[:-1], v.replace("a", "b")])
+            elif isinstance(v, int) and not isinstance(v, bool):
+                plist[i] = rng.choice([v + 1, -v, str(v)]) if kinds[i] == "any" else v + 1
+            if kinds[0] == "id":
+                ids[0] += 1
+                plist[0] = ids[0]
+            params = tuple(plist)
+        prev = ((kind, sql, kinds), params)
         ref_sql = substitute(sql, params)
         ra, rb = run_call(a, sql, params), run_call(b, ref_sql, None)
         out["evals"] += 1
